@@ -166,6 +166,56 @@ type Line struct {
 	St    map[string]LedgerObs `json:"st"`
 	Ev    []EvObs              `json:"ev"`
 	Feat  map[string]string    `json:"feat,omitempty"`
+	// concurrent step: Ops were issued concurrently from the state of the last sequential line; St is the
+	// state after all of them finished; CSeq their commit ranks (0 = no commit); Chain the hash-chain
+	// predecessor recovered for each log of St (id order)
+	Conc  bool   `json:"conc"`
+	Ops   []Op   `json:"ops"`
+	Ress  []Res  `json:"ress"`
+	CSeq  []int  `json:"cseq"`
+	Chain []int  `json:"chain"`
+	Sched string `json:"sched"`
+	Prop  string `json:"prop"` // property the concurrent scenario family targets (C06, C13, ...)
+	Fam   string `json:"fam"`
+}
+
+// PropOfFamily maps a concurrent scenario family to the property whose serializability predicate owns it.
+func PropOfFamily(f string) string {
+	switch {
+	case len(f) >= 9 && f[:9] == "overdraft":
+		return "C06"
+	case len(f) >= 3 && f[:3] == "ik/":
+		return "C13"
+	case len(f) >= 4 && f[:4] == "ref/":
+		return "C14"
+	case len(f) >= 7 && f[:7] == "revert/":
+		return "C15"
+	case len(f) >= 4 && f[:4] == "ids/":
+		return "C16"
+	}
+	return ""
+}
+
+func (l *Line) Norm() {
+	l.Op.Norm()
+	if l.Ev == nil {
+		l.Ev = []EvObs{}
+	}
+	if l.Ops == nil {
+		l.Ops = []Op{}
+	}
+	for i := range l.Ops {
+		l.Ops[i].Norm()
+	}
+	if l.Ress == nil {
+		l.Ress = []Res{}
+	}
+	if l.CSeq == nil {
+		l.CSeq = []int{}
+	}
+	if l.Chain == nil {
+		l.Chain = []int{}
+	}
 }
 
 type EvObs struct {
